@@ -24,7 +24,7 @@ theorem type_marks :
     (typeMarks.map (·.1)) = [COMMENT_TYPE_RECOMMEND, COMMENT_TYPE_BOO, COMMENT_TYPE_COMMENT] ∧
     offModified = 28 ∧ lenModified = 4 ∧ offRecommend = 33 ∧ lenRecommend = 1 ∧ offFilemode = 124 ∧
     offFilename = 0 ∧ lenFilename = 28 ∧ dirSz = 128 ∧
-    FILE_MARKED = 2 ∧ FILE_SOLVED = 16 ∧ MAX_RECOMMENDS = 100 ∧ IDLEN = 12 ∧ IPV4LEN = 15 := by decide
+    Gen.Comment.FILE_MARKED = 2 ∧ Gen.Comment.FILE_SOLVED = 16 ∧ MAX_RECOMMENDS = 100 ∧ IDLEN = 12 ∧ IPV4LEN = 15 := by decide
 
 /-- a type outside the table has no mark: its line starts with the blank. -/
 theorem type_without_mark (t : Nat) (h : t ∉ typeMarks.map (·.1)) : typeBytes t = [] := by
@@ -255,7 +255,7 @@ theorem comment_refusals (find : Bytes → Nat → Bytes → Option Nat) (cfg : 
     (hclass : hasBit cfg.attr BRD_NORECOMMEND = true ∨
       (∃ idx r, getRecord find st.dir (st.dir.bytes.length / dirSz) q.name = .ok (idx, r) ∧ r.getD offFilename 0 = 76) ∨
       ∃ idx r, getRecord find st.dir (st.dir.bytes.length / dirSz) q.name = .ok (idx, r) ∧
-        hasBit (r.getD offFilemode 0) FILE_MARKED = true ∧ hasBit (r.getD offFilemode 0) FILE_SOLVED = true) :
+        hasBit (r.getD offFilemode 0) Gen.Comment.FILE_MARKED = true ∧ hasBit (r.getD offFilemode 0) Gen.Comment.FILE_SOLVED = true) :
     (recommend find cfg st q).1 = st ∧ (∀ line idx, (recommend find cfg st q).2 ≠ .ok line idx) ∧
     (∀ idx r, getRecord find st.dir (st.dir.bytes.length / dirSz) q.name = .ok (idx, r) →
       st.dir.bytes.length / dirSz ≠ 0 → recommend find cfg st q = (st, .refused)) := by
@@ -263,7 +263,7 @@ theorem comment_refusals (find : Bytes → Nat → Bytes → Option Nat) (cfg : 
       refusedBy cfg q r = true := by
     intro idx r hg
     show (hasBit cfg.attr BRD_NORECOMMEND || r.getD offFilename 0 == 76 ||
-      (hasBit (r.getD offFilemode 0) FILE_MARKED && hasBit (r.getD offFilemode 0) FILE_SOLVED)) = true
+      (hasBit (r.getD offFilemode 0) Gen.Comment.FILE_MARKED && hasBit (r.getD offFilemode 0) Gen.Comment.FILE_SOLVED)) = true
     rcases hclass with h | ⟨idx', r', hg', h⟩ | ⟨idx', r', hg', h1, h2⟩
     · rw [h]; rfl
     · rw [hg] at hg'
@@ -546,6 +546,13 @@ theorem step_scores (find : Bytes → Nat → Bytes → Option Nat) (s : Sys) (e
   | giveUp i =>
     have := same (stepEv find s (.giveUp i)) rfl
     simp only [stepMoves]; refine ⟨this.1, this.2.1, by omega, by omega⟩
+  | writeFault i room =>
+    have := same (stepEv find s (.writeFault i room)) (by
+      simp only [stepEv]
+      split
+      · rfl
+      · simp only [phaseWriteFault]; split <;> rfl)
+    simp only [stepMoves]; refine ⟨this.1, this.2.1, by omega, by omega⟩
   | ext n bs =>
     have := same (stepEv find s (.ext n bs)) (by
       simp only [stepEv, extAppend]
@@ -630,6 +637,15 @@ theorem step_files_prefix (find : Bytes → Nat → Bytes → Option Nat) (s : S
       cases hm : fileGet s.st.files (cstr (field t.copy offFilename lenFilename)) with
       | none => exact same _ rfl
       | some oldm => exact setCase _ _ _ hm
+  | writeFault i room =>
+    simp only [stepEv]
+    split
+    · exact same _ rfl
+    · rename_i t _
+      simp only [phaseWriteFault]
+      cases hm : fileGet s.st.files (cstr (field t.copy offFilename lenFilename)) with
+      | none => exact same _ rfl
+      | some oldm => exact setCase _ _ _ hm
   | ext m bs =>
     simp only [stepEv, extAppend]
     cases hm : fileGet s.st.files m with
@@ -700,6 +716,103 @@ theorem stale_offset_overwrites :
     (runA staleOffsetRule s0 evs).content = [104, 10, 99, 99, 10] ∧
     ¬ ([104, 10, 120, 121, 10] <+: (runA staleOffsetRule s0 evs).content) := by
   decide
+
+/-! #### a write that fails after the open (EFBIG / ENOSPC / EDQUOT), both append branches -/
+
+theorem phaseA_line {find : Bytes → Nat → Bytes → Option Nat} {cfg : Cfg} {st : St} {q : Req} {t : Ticket}
+    (h : phaseA find cfg st q = .ok t) : t.line = formatComment cfg q := by
+  unfold phaseA at h
+  simp only [] at h
+  split at h
+  · cases h
+  · split at h
+    · cases h
+    · split at h
+      · cases h
+      · split at h
+        · cases h
+        · injection h with h; rw [← h]
+
+/-- when the whole line fits there is no fault: the request is the ordinary one. -/
+theorem no_fault_is_recommend (find : Bytes → Nat → Bytes → Option Nat) (cfg : Cfg) (st : St) (q : Req) (room : Nat)
+    (h : (formatComment cfg q).length ≤ room) : recommendFault find cfg st q room = recommend find cfg st q := by
+  rw [recommend_eq_phases]
+  unfold recommendFault
+  cases hA : phaseA find cfg st q with
+  | error e => rfl
+  | ok t =>
+    simp only []
+    rw [if_neg (by rw [phaseA_line hA]; omega)]
+
+/-- **write_fault_keeps_bytes**: when the line does not fit (only `room` bytes do), the comment is not
+accepted, the index is exactly as it was, every article file still starts with ALL the bytes it had — the
+addressed one is its old content followed by the first `room` bytes of the line (what the kernel wrote before
+the fault), every other file is untouched.  No byte written earlier is removed or changed. -/
+theorem write_fault_keeps_bytes (find : Bytes → Nat → Bytes → Option Nat) (cfg : Cfg) (st : St) (q : Req) (room : Nat)
+    (h : room < (formatComment cfg q).length) :
+    (recommendFault find cfg st q room).1.dir = st.dir ∧
+    (∀ line idx, (recommendFault find cfg st q room).2 ≠ .ok line idx) ∧
+    (∀ n old, fileGet st.files n = some old →
+      ∃ suf, fileGet (recommendFault find cfg st q room).1.files n = some (old ++ suf) ∧
+        (suf = [] ∨ suf = (formatComment cfg q).take room)) := by
+  unfold recommendFault
+  cases hA : phaseA find cfg st q with
+  | error e =>
+    simp only []
+    refine ⟨trivial, ?_, fun n old ho => ⟨[], by rw [ho, List.append_nil], Or.inl rfl⟩⟩
+    intro l i he; subst he
+    unfold phaseA at hA
+    simp only [] at hA
+    split at hA
+    · cases hA
+    · split at hA
+      · rename_i e' hg
+        injection hA with hA; subst hA
+        unfold getRecord at hg
+        split at hg
+        · cases hg
+        · split at hg
+          · cases hg
+          · simp only [] at hg
+            split at hg
+            · cases hg
+            · split at hg <;> cases hg
+      · split at hA
+        · cases hA
+        · split at hA <;> cases hA
+  | ok t =>
+    simp only []
+    have hl := phaseA_line hA
+    rw [if_pos (by rw [hl]; exact h)]
+    cases hf : fileGet st.files (cstr (field t.copy offFilename lenFilename)) with
+    | none =>
+      simp only []
+      exact ⟨trivial, fun l i he => (by cases he), fun n old ho => ⟨[], by rw [ho, List.append_nil], Or.inl rfl⟩⟩
+    | some oldm =>
+      simp only [phaseWriteFault, hf]
+      refine ⟨trivial, fun l i he => (by cases he), ?_⟩
+      intro n old ho
+      by_cases hn : n = cstr (field t.copy offFilename lenFilename)
+      · subst hn
+        rw [hf] at ho; injection ho with ho; subst ho
+        exact ⟨t.line.take room, fileGet_fileSet_same _ _ _ _ hf, Or.inr (by rw [hl])⟩
+      · exact ⟨[], by rw [fileGet_fileSet_other _ _ _ _ hn, ho, List.append_nil], Or.inl rfl⟩
+
+/-- **truncate_back_destroys** (the rule of seeded change C10-r4-2): "taking the torn comment back" by
+truncating to size − len(comment) removes len(comment) − n bytes of the OLD article when only n bytes had
+arrived; the real rule (leave what the kernel wrote) keeps every old byte. -/
+theorem truncate_back_destroys :
+    let old : Bytes := [98, 111, 100, 121, 10, 99, 111, 109, 109, 101, 110, 116, 10]
+    let line : Bytes := [49, 50, 51, 52, 53, 54, 55, 10]
+    truncateBackRule old line 3 = [98, 111, 100, 121, 10, 99, 111, 109] ∧
+    ¬ (old <+: truncateBackRule old line 3) ∧
+    old <+: old ++ line.take 3 := by
+  decide
+
+example : (recommendFault findLinear ⟨0, false, false⟩ (exSt 77 0 5) (exReq 77 1) 4).2 = .writeErr ∧
+    fileGet (recommendFault findLinear ⟨0, false, false⟩ (exSt 77 0 5) (exReq 77 1) 4).1.files ((exName 77).take 18) =
+      some ([104, 10] ++ (formatComment ⟨0, false, false⟩ (exReq 77 1)).take 4) := by
+  decide +kernel
 
 /-- the sequential comment is the special case "phase A, write, index" with nothing in between. -/
 theorem sequential_is_interleaving (find : Bytes → Nat → Bytes → Option Nat) (cfg : Cfg) (st : St) (q : Req) :
